@@ -118,9 +118,35 @@ def run(rep, tier):
     R2 = Range(pd, is_N2, nmin=2).run()
     rep.assumptions.append("legacy Histogram: N = options_.n_ >= 2 (its interval is (max-min)/(n-1)); HistogramNew: N >= 1")
     subs = [n for n in pd.walk() if n.get("k") == "opcall" and n.get("op") == "[]" and unwrap(n["args"][0]).get("field") == T + "Histogram::pdf_"]
-    rep.floor("R13.1", len(subs), 10, "pdf_ subscripts in Histogram::ProcessData")
+    nsub = len(subs)
     for s in subs:
         check_site(rep, R2, pd, s, unwrap(s["args"][1]), "Histogram::ProcessData")
+    # file-local helpers that receive pdf_ by reference: their subscripts of that parameter are histogram subscripts too,
+    # with N = <param>.size()
+    for c in pd.walk():
+        if c.get("k") != "call":
+            continue
+        hs = [h for h in F.funcs if h.qname == c.get("callee") and h.j.get("internal") and h.file == pd.file]
+        for h in hs[:1]:
+            for i_, a_ in enumerate(c.get("args") or []):
+                if unwrap(a_).get("field") != T + "Histogram::pdf_" or i_ >= len(h.j["params"]):
+                    continue
+                pdecl = h.j["params"][i_].get("decl") or h.j["params"][i_].get("id")
+                pname = h.j["params"][i_]["name"]
+
+                def is_pdf(n, pname=pname):
+                    n = unwrap(n)
+                    return n.get("k") == "ref" and n.get("dk") == "param" and n.get("name") == pname
+
+                def is_Nh(n, is_pdf=is_pdf):
+                    return n.get("k") == "mcall" and (n.get("callee") or "").endswith("::size") and is_pdf(n["obj"])
+                rep.analysed(h)
+                Rh = Range(h, is_Nh, nmin=2).run()
+                hsubs = [n for n in h.walk() if n.get("k") == "opcall" and n.get("op") == "[]" and is_pdf(n["args"][0])]
+                nsub += len(hsubs)
+                for s in hsubs:
+                    check_site(rep, Rh, h, s, unwrap(s["args"][1]), h.qname.split("::")[-1])
+    rep.floor("R13.1", nsub, 10, "pdf_ subscripts in Histogram::ProcessData and its file-local helpers")
     # pdf_.assign(options_.n_, 0) dominates all subscripts
     g = CFG(pd)
     asg = [n for n in pd.walk() if n.get("k") == "mcall" and re.search(r"vector<.*>::assign$", n.get("callee") or "") and unwrap(n["obj"]).get("field") == T + "Histogram::pdf_"]
